@@ -261,7 +261,7 @@ def check_infinite(stop: int, pre_kind: int, post_kind: int) -> bool:
     return h.ok(len(got) == stop and pulls(trace) <= stop)
 
 
-def check_split_blocks(bufsize: int, xs: List[int], k: int, nb: int, filt: bool) -> bool:
+def check_split_blocks(bufsize: int, xs: List[int], k: int, nb: int, filt: bool, explicit: bool) -> bool:
     """
     pre: 1 <= bufsize <= B.BUF
     pre: len(xs) <= B.N
@@ -275,6 +275,11 @@ def check_split_blocks(bufsize: int, xs: List[int], k: int, nb: int, filt: bool)
     vals = [(x, {"i": i}) for i, x in enumerate(xs)]
     trace = []
     branches = [(add3,), (Filter(_even),) if filt else (Variable("x2", _dbl),)][:nb]
+    if explicit:
+        # branches given as explicit Sequence objects; the first one contains
+        # a Count (an element that also has fill/compute): still a streaming,
+        # per-block branch
+        branches = [Sequence(Count(), add3)] + [Sequence(*br) for br in branches[1:]]
     s = Split(branches, bufsize=bufsize)
     feed = Feed(vals, trace)
     gen = s.run(feed)
@@ -328,12 +333,14 @@ def check_negative_start_positive_stop(s: int, b: int, n: int, infinite: bool) -
     return h.ok(got == vals[-s:b] and pulls(trace) <= n)
 
 
-def check_negative_slice(s: int, form: int, xs: List[int], k: int) -> bool:
+def check_negative_slice(s: int, form: int, xs: List[int], k: int, step: int) -> bool:
     """
     pre: 1 <= s <= B.S
     pre: 0 <= form <= 2
-    pre: len(xs) <= B.N + 1
+    pre: len(xs) <= B.N + 2
     pre: 0 <= k <= len(xs)
+    pre: 1 <= step <= 3
+    pre: h.in_shard(form + 3 * (step - 1))
     post: _
     """
     vals = list(xs)
@@ -342,11 +349,11 @@ def check_negative_slice(s: int, form: int, xs: List[int], k: int) -> bool:
         PyDeque.reset_stats()
         feed = Feed(vals, trace)
         if form == 0:
-            el = Slice(-s)              # negative stop: lags the input by s
+            el = Slice(None, -s, step)  # negative stop: lags the input by s
         elif form == 1:
-            el = Slice(1, -s)
+            el = Slice(1, -s, step)
         else:
-            el = Slice(-s, None)        # last s values: keeps s alive
+            el = Slice(-s, None, step)  # last s values: keeps s alive
         gen = el.run(feed)
         if pulls(trace) != 0:
             return h.ok(False)
@@ -358,9 +365,11 @@ def check_negative_slice(s: int, form: int, xs: List[int], k: int) -> bool:
             except StopIteration:
                 break
             j += 1
-            if form == 0 and pulls(trace) != j + s:
+            # the j-th result is input number (j-1)*step (+1 for start=1):
+            # a negative stop lags its input by exactly s values
+            if form == 0 and pulls(trace) != (j - 1) * step + 1 + s:
                 return h.ok(False)
-            if form == 1 and pulls(trace) != j + s + 1:
+            if form == 1 and pulls(trace) != (j - 1) * step + 1 + s + 1:
                 return h.ok(False)
         if PyDeque.high_water > s:
             return h.ok(False)
@@ -374,10 +383,10 @@ CONDITIONS = [
                 "check_demand(2, 7, 1, 0, 0, 0, [1, 2], 2, False)", "check_demand(2, 2, 3, 0, 0, 0, [95850, 35739], 1, True)"]),
     dict(fn="check_infinite", shards=(5, 10), budget=(60, 300), smoke=["check_infinite(3, 0, 1)"]),
     dict(fn="check_split_blocks", shards=(12, 24), budget=(70, 900),
-         smoke=["check_split_blocks(2, [1, 2, 3, 4, 5], 4, 2, True)"]),
+         smoke=["check_split_blocks(2, [1, 2, 3, 4, 5], 4, 2, True, False)", "check_split_blocks(2, [1, 2, 3, 4, 5], 4, 2, False, True)"]),
     dict(fn="check_negative_start_positive_stop", budget=(70, 600),
          smoke=["check_negative_start_positive_stop(2, 3, 4, False)", "check_negative_start_positive_stop(2, 3, 0, True)"]),
-    dict(fn="check_negative_slice", budget=(70, 900),
-         smoke=["check_negative_slice(2, 0, [1, 2, 3, 4, 5], 3)", "check_negative_slice(2, 2, [1, 2, 3, 4, 5], 2)",
-                "check_negative_slice(1, 1, [1, 2, 3, 4], 2)"]),
+    dict(fn="check_negative_slice", shards=(9, 9), budget=(70, 900),
+         smoke=["check_negative_slice(2, 0, [1, 2, 3, 4, 5], 3, 1)", "check_negative_slice(2, 2, [1, 2, 3, 4, 5], 2, 1)",
+                "check_negative_slice(1, 1, [1, 2, 3, 4], 2, 1)", "check_negative_slice(1, 0, [1, 2, 3, 4, 5], 2, 2)"]),
 ]
